@@ -702,21 +702,24 @@ def struct_session(g, tier):
     return ops
 
 
-def many_templates_session(g, n=1100):
-    """more template ids than any plausible cache bound, then data for the oldest and newest ids; a twin parser is
-    fed the same history (nothing may be evicted, C06; two parsers must agree, C16)"""
+def many_templates_session(g, n=1100, proto="v9"):
+    """more template ids than any plausible cache bound, then data for the oldest, the newest and a sample of ids;
+    a twin parser is fed the same history (nothing may be evicted, C06; two parsers must agree, C16)"""
     r = g.r
     ops = ops_reset(("A", "B"))
-    recs = []
-    for i in range(n):
-        recs += b16(256 + i) + b16(1) + b16(1) + b16(4)
-    v9t = g.v9_hdr(1) + g.set_(0, recs)
-    ixt = g.ix_msg([g.set_(2, b16(256 + i) + b16(1) + b16(1) + b16(4)) for i in range(n)])
-    ids = [256, 257, 256 + n // 2, 256 + n - 2, 256 + n - 1] + [256 + r.randrange(n) for _ in range(4)]
-    bufs = [v9t, ixt]
+    if proto == "v9":
+        recs = []
+        for i in range(n):
+            recs += b16(256 + i) + b16(1) + b16(1) + b16(4)
+        bufs = [g.v9_hdr(1) + g.set_(0, recs)]
+    else:
+        bufs = [g.ix_msg([g.set_(2, b16(256 + i) + b16(1) + b16(1) + b16(4)) for i in range(n)])]
+    ids = [256, 257, 256 + n // 2, 256 + n - 2, 256 + n - 1] + [256 + r.randrange(n) for _ in range(20)]
     for t in ids:
-        bufs.append(g.v9_hdr(1) + g.set_(t, g.rbytes(8)))
-        bufs.append(g.ix_msg([g.set_(t, g.rbytes(8))]))
+        if proto == "v9":
+            bufs.append(g.v9_hdr(1) + g.set_(t, g.rbytes(8)))
+        else:
+            bufs.append(g.ix_msg([g.set_(t, g.rbytes(8))]))
     for p in ("A", "B"):
         for b in bufs:
             ops.append(call(p, b))
